@@ -2,7 +2,7 @@
    behaviours used by the correspondence check, and the observation compared with the code. *)
 From Coq Require Import List Arith Bool.
 Import ListNotations.
-From NJ Require Import Base Edits Registry Classify Select Reorder Machine.
+From NJ Require Import Base Edits Registry Classify Select Reorder Machine Spec.
 
 (* ---------- synthetic providers ---------- *)
 Definition PID_DEBUG := 90.
@@ -303,13 +303,123 @@ Definition fix_cached (funcs : list prov) (s : script) : script :=
   | [] => s
   end.
 
+(* ---------- link to the reference semantics (Spec.v) ---------- *)
+(* The type-level wiring of a selected provider, as the reference semantics needs it. *)
+Definition rp_of (te : tyenv) (p : prov) (zero : list nat) : rp :=
+  let ins := filter (fun t => negb (t =? te_noT te)) (pflow p FIn) in
+  let zero' := match p_class p with ClWrapper | ClFallible | ClFallibleStatic => zero | _ => [] end in
+  mkRp (p_pid p) (p_class p) (d_parallel (s_d (p_s p)))
+       (map (remap (p_downR p)) ins)
+       (pflow p FOut)
+       (match p_class p with ClFallible => [] | _ => pflow p FRet end)
+       (map (remap (p_upR p)) (pflow p FRecv))
+       zero'
+       (match index_of (te_terminalT te) (orig_outs p) 0 with Some i => i | None => 0 end).
+
+Definition splan_of (te : tyenv) (pl : plan) : option splan :=
+  let inc := filter (fun pz : prov * list nat => p_include (fst pz)) (sl_funcs (pl_slots pl)) in
+  let rps g := map (fun pz : prov * list nat => rp_of te (fst pz) (snd pz)) (filter (fun pz => g (fst pz)) inc) in
+  let statics := rps (fun p => group_eqb (p_group p) GStatic || group_eqb (p_group p) GLiteral) in
+  let runs := rps (fun p => group_eqb (p_group p) GRun) ++ rps (fun p => group_eqb (p_group p) GFinal) in
+  let inits := filter (fun pz : prov * list nat => class_eqb (p_class (fst pz)) ClInit) inc in
+  let invs := filter (fun pz : prov * list nat => class_eqb (p_class (fst pz)) ClInvoke) inc in
+  match invs with
+  | [iv] =>
+    let ivr := rp_of te (fst iv) [] in
+    let mk (i : option rp) := mkSplan statics runs i ivr in
+    match inits with
+    | [] => Some (mk None)
+    | [it] =>
+      let p := fst it in
+      (* init returns its bypass types, read through the bypass remap from the down slots *)
+      Some (mk (Some (mkRp (p_pid p) ClInit false (map (remap (p_bypassR p)) (pflow p FBypass)) (pflow p FOut) [] [] [] 0)))
+    | _ => None
+    end
+  | _ => None
+  end.
+
+Definition sd_of (sl : slotted) (t : nat) : option nat :=
+  match alookup t (sl_down sl) with Some s => s | None => None end.
+Definition su_of (sl : slotted) (t : nat) : option nat :=
+  match alookup t (sl_up sl) with Some s => s | None => None end.
+
+Definition slot_idx (vm : list (nat * option nat)) : list nat :=
+  flat_map (fun e : nat * option nat => match snd e with Some i => [i] | None => [] end) vm.
+
+Fixpoint nodup_b (l : list nat) : bool :=
+  match l with [] => true | x :: r => negb (memb x r) && nodup_b r end.
+
+Definition is_some {A} (o : option A) : bool := match o with Some _ => true | None => false end.
+
+Definition slots_ok_b (sl : slotted) : bool :=
+  nodup_b (map fst (sl_down sl)) && nodup_b (map fst (sl_up sl)) &&
+  nodup_b (slot_idx (sl_down sl) ++ slot_idx (sl_up sl)) &&
+  forallb (fun i => i <? sl_count sl) (slot_idx (sl_down sl) ++ slot_idx (sl_up sl)).
+
+Definition covered_b (sl : slotted) (errT : nat) (r : rp) : bool :=
+  forallb (fun t => is_some (sd_of sl t)) (r_ins r) && forallb (fun t => is_some (su_of sl t)) (r_recv r) &&
+  (if class_eqb (r_class r) ClFallible then is_some (su_of sl errT) else true).
+Definition covered_s_b (sl : slotted) (r : rp) : bool := forallb (fun t => is_some (sd_of sl t)) (r_ins r).
+
+(* decidable equality of compiled providers *)
+Definition on_eqb (a b : option nat) : bool :=
+  match a, b with Some x, Some y => x =? y | None, None => true | _, _ => false end.
+Fixpoint ps_eqb (a b : list (option nat * nat)) : bool :=
+  match a, b with
+  | [], [] => true
+  | (s, t) :: a', (s', t') :: b' => on_eqb s s' && (t =? t') && ps_eqb a' b'
+  | _, _ => false
+  end.
+Fixpoint zs_eqb (a b : list (nat * nat)) : bool :=
+  match a, b with
+  | [], [] => true
+  | (s, t) :: a', (s', t') :: b' => (s =? s') && (t =? t') && zs_eqb a' b'
+  | _, _ => false
+  end.
+Definition cp_eqb (a b : cp) : bool :=
+  (cp_pid a =? cp_pid b) && class_eqb (cp_class a) (cp_class b) && Bool.eqb (cp_parallel a) (cp_parallel b) &&
+  ps_eqb (cp_in a) (cp_in b) && ps_eqb (cp_out a) (cp_out b) && ps_eqb (cp_ret a) (cp_ret b) &&
+  ps_eqb (cp_recv a) (cp_recv b) && zs_eqb (cp_zero a) (cp_zero b) && (cp_tepos a =? cp_tepos b) &&
+  on_eqb (cp_errslot a) (cp_errslot b).
+Fixpoint cps_eqb (a b : list cp) : bool :=
+  match a, b with
+  | [], [] => true
+  | x :: a', y :: b' => cp_eqb x y && cps_eqb a' b'
+  | _, _ => false
+  end.
+
+Definition bound_eqb (a b : bound) : bool :=
+  cps_eqb (bd_static a) (bd_static b) && cps_eqb (bd_run a) (bd_run b) &&
+  (match bd_init a, bd_init b with Some x, Some y => cp_eqb x y | None, None => true | _, _ => false end) &&
+  cp_eqb (bd_invoke a) (bd_invoke b).
+
+Definition is_invalid (v : val) : bool := match v with VInvalid => true | _ => false end.
+
+(* Everything the refinement theorem assumes about a plan and its compiled form, as one
+   decidable check.  It is evaluated on every case of the correspondence run. *)
+Definition plan_wf (te : tyenv) (pl : plan) (b : bound) : bool :=
+  let sl := pl_slots pl in
+  match splan_of te pl with
+  | None => false
+  | Some sp =>
+    slots_ok_b sl &&
+    (length (bd_base0 b) =? sl_count sl) &&
+    forallb (fun i => is_invalid (aget i (bd_base0 b))) (slot_idx (sl_up sl)) &&
+    forallb (covered_b sl (te_errorT te)) (sp_run sp) &&
+    forallb (covered_s_b sl) (sp_static sp) &&
+    (match sp_init sp with Some ir => forallb (fun t => is_some (sd_of sl t)) (r_ins ir) | None => true end) &&
+    forallb (fun t => is_some (su_of sl t)) (r_recv (sp_invoke sp)) &&
+    bound_eqb b (bound_of (sd_of sl) (su_of sl) (te_errorT te) (bd_base0 b) sp)
+  end.
+
 (* ---------- observation ---------- *)
 Record obs := mkObs {
   o_bind : res unit;
   o_order : list (nat * nat * nat * bool);        (* pid, class, group, include *)
   o_rmaps : list (nat * list (nat * nat) * list (nat * nat));   (* included providers: pid, inputs>source type, received>source type *)
   o_results : list sres;
-  o_log : list event
+  o_log : list event;
+  o_wf : bool                                     (* plan_wf: hypotheses of the refinement theorem *)
 }.
 
 Definition rmap_view (m : list (nat * nat)) (tys : list nat) (noT : nat) : list (nat * nat) :=
@@ -318,8 +428,8 @@ Definition rmap_view (m : list (nat * nat)) (tys : list nat) (noT : nat) : list 
 
 Definition model_run (c : bcase) : obs :=
   match bind_chain c with
-  | Err e => mkObs (Err e) [] [] [] []
-  | Panic e => mkObs (Panic e) [] [] [] []
+  | Err e => mkObs (Err e) [] [] [] [] true
+  | Panic e => mkObs (Panic e) [] [] [] [] true
   | Ok (pl, b) =>
     let te := bc_te c in
     let scripts := map (fix_cached (pl_funcs pl)) (scripts_of c) in
@@ -331,5 +441,6 @@ Definition model_run (c : bcase) : obs :=
           (flat_map (fun p => if p_include p then
                        [(p_pid p, rmap_view (p_downR p) (pflow p FIn) (te_noT te),
                                   rmap_view (p_upR p) (pflow p FRecv) (te_noT te))] else []) (pl_funcs pl))
-          results (rev (sw_log (ss_w sw s)))
+          results (rev (sw_log (ss_w sw s))) (plan_wf te pl b)
   end.
+
